@@ -168,6 +168,22 @@ func (p *Plan) Shrink() []*Plan {
 				if i < len(q.InCaps) {
 					q.InCaps = append(q.InCaps[:i:i], q.InCaps[i+1:]...)
 				}
+				if i < len(q.Producers) {
+					q.Producers = append(q.Producers[:i:i], q.Producers[i+1:]...)
+				}
+				// elements say which input they belong to (InputStride*index +
+				// position): the inputs behind the removed one move up by one
+				if InputStride > 0 {
+					for j := i; j < len(q.Inputs); j++ {
+						in := append([]int(nil), q.Inputs[j]...)
+						for k, v := range in {
+							if v >= 0 && v/InputStride == j+1 {
+								in[k] = v - InputStride
+							}
+						}
+						q.Inputs[j] = in
+					}
+				}
 				return true
 			})
 		}
@@ -206,6 +222,10 @@ func (p *Plan) Shrink() []*Plan {
 	}
 	return out
 }
+
+// InputStride, when set by the scenarios, is the stride by which element values
+// encode the index of their input (see Shrink).
+var InputStride int
 
 // Seed0 is a small number derived from the plan itself (stable under replay).
 func (p *Plan) Seed0() int { return p.Fn + p.Cap + p.Par + len(p.Inputs) + p.N }
